@@ -24,9 +24,8 @@ class LineCov:
     def __init__(self, funcs):
         self.codes = {}
         for f in funcs:
-            f = getattr(f, 'py_func', f)
-            f = getattr(f, '_python_func', f)
-            f = getattr(f, '__func__', f)
+            from .rebind import pyfunc_of
+            f = pyfunc_of(f)
             co = f.__code__
             self.codes[co] = f'{f.__module__}.{f.__qualname__}'
         self.hit = {co: set() for co in self.codes}
@@ -81,6 +80,16 @@ def _run_item(args):
     modname, item = args
     t0 = time.time()
     try:
+        # debugging aids: which item a worker is on, and SIGUSR1 -> python stack into .run/
+        import faulthandler, signal
+        rd = os.path.join(VERIF, '.run')
+        os.makedirs(rd, exist_ok=True)
+        with open(os.path.join(rd, f'{os.getpid()}.item'), 'w') as f:
+            f.write(item['name'] + '\n')
+        faulthandler.register(signal.SIGUSR1, file=open(os.path.join(rd, f'{os.getpid()}.stack'), 'w'), all_threads=True)
+    except Exception:
+        pass
+    try:
         mod = __import__(modname, fromlist=['x'])
         res = mod.run(item)
         res.setdefault('item', item)
@@ -125,7 +134,7 @@ def run_replay_script(path, timeout=600, env=None):
     code behaves correctly, anything else = replay harness problem."""
     e = dict(os.environ)
     e.update(env or {})
-    e.setdefault('PYTHONPATH', '/repo')
+    e['PYTHONPATH'] = os.environ.get('VERIF_REPO', '/repo')
     p = subprocess.run([PY, path], capture_output=True, text=True, timeout=timeout, env=e)
     return p.returncode, (p.stdout + p.stderr)[-4000:]
 
